@@ -8,7 +8,7 @@ use serde_json::{json, Value};
 
 use crate::common::{catch, hash_of, Fail};
 use crate::fuzzrun;
-use crate::runner::{ExtraOut, VERIF_DIR};
+use crate::runner::{verif_dir, ExtraOut};
 
 pub struct Campaign<'a> {
     pub id: &'a str,
@@ -21,20 +21,24 @@ pub struct Campaign<'a> {
 
 /// Runs the campaign and merges its outcome into `out`. Returns false when the stage was inconclusive.
 pub fn run(c: &Campaign, out: &mut ExtraOut) -> bool {
-    let work = PathBuf::from(VERIF_DIR).join("target/fuzzwork").join(format!("{}-{}", c.id, c.target));
+    let work = PathBuf::from(verif_dir()).join("target/fuzzwork").join(format!("{}-{}", c.id, c.target));
     let _ = std::fs::remove_dir_all(&work);
     let corpus = work.join("corpus");
     let artifacts = work.join("artifacts");
     std::fs::create_dir_all(&corpus).unwrap();
     std::fs::create_dir_all(&artifacts).unwrap();
-    let seeds = PathBuf::from(VERIF_DIR).join("fuzz/seeds").join(c.target);
+    let seeds = PathBuf::from(verif_dir()).join("fuzz/seeds").join(c.target);
     let mut cmd = Command::new("cargo");
     cmd.current_dir(&work)
         .env("VERIF_FOCUS", c.id)
         .env("RUSTFLAGS", "--cfg grenad_verif")
         .env("CARGO_NET_OFFLINE", "true")
         .env("ASAN_OPTIONS", "detect_leaks=1:abort_on_error=1")
-        .args(["+nightly", "fuzz", "run", "--fuzz-dir", "/verif/fuzz", "--target-dir", "/verif/target/fuzz", c.target])
+        .args(["+nightly", "fuzz", "run", "--fuzz-dir"])
+        .arg(format!("{}/fuzz", verif_dir()))
+        .arg("--target-dir")
+        .arg(format!("{}/target/fuzz", verif_dir()))
+        .arg(c.target)
         .arg(&corpus)
         .arg(&seeds)
         .arg("--")
@@ -102,7 +106,7 @@ pub fn run(c: &Campaign, out: &mut ExtraOut) -> bool {
             Ok(r) => r,
             Err(p) => Err(Fail::new("harness:panic", p)),
         };
-        let dest = Path::new(VERIF_DIR).join("replays");
+        let dest = Path::new(verif_dir()).join("replays");
         let _ = std::fs::create_dir_all(&dest);
         match verdict {
             Err(f) => {
